@@ -47,9 +47,11 @@ TagText(t) == t.n \o ":" \o t.v
      i   an optional "+" sign, "-0": same integer
      f   exponent / trailing zero / missing fraction: same real number
      J   insignificant white space between JSON tokens (RFC 8259 section 2)
-     B   element spelling as for i/f; the integer subtype letter is a function of
-         the range of the elements (gfapy doc/tutorial/tags.rst, "the smallest
-         possible subtype range is selected") -- (name, B, list of numbers) is kept
+     B   float elements as for f.  Integer arrays are not table entries but a rule of
+         CT below: same element texts under ANY integer subtype letter, because the
+         letter is a function of the range of the elements (gfapy doc/tutorial/tags.rst:
+         "the smallest possible subtype range is selected") -- (name, B, list of numbers)
+         is kept, e.g.  B:i,1,2 -> B:C,1,2
    A, Z, H have a single spelling: identity entries only.  Identity entries list the
    values of the catalogue whose written text is fully predicted.                    *)
 SpellTo ==
@@ -66,21 +68,20 @@ SpellTo ==
   @@ ("J:{\"a\": 1}" :> "J:{\"a\": 1}") @@ ("J:{\"a\":1}" :> "J:{\"a\": 1}")
   @@ ("J:[1,2.5,\"x\",null,true]" :> "J:[1, 2.5, \"x\", null, true]")
   @@ ("J:[1, 2.5, \"x\", null, true]" :> "J:[1, 2.5, \"x\", null, true]")
+  @@ ("J:[1, 2]" :> "J:[1, 2]")
   @@ ("H:1AE3" :> "H:1AE3")
-  @@ ("B:C,1,2" :> "B:C,1,2") @@ ("B:i,1,2" :> "B:C,1,2")
   @@ ("B:f,1.5,2.0" :> "B:f,1.5,2.0")
   @@ ("B:f,1,2.5" :> "B:f,1.0,2.5") @@ ("B:f,1.0,2.5" :> "B:f,1.0,2.5")
-  @@ ("B:c,-1,2" :> "B:c,-1,2")
 
 IntSub == {"c", "C", "s", "S", "i", "I"}
 (* canonical tag: in the table -> the table decides; otherwise (values of the random
    driver) integers/strings/JSON must keep their text, a B array of integers must keep
    its element texts under an integer subtype, floats are only held to the fixed point *)
 CT(t) ==
-  IF t.v \in DOMAIN SpellTo THEN <<t.n, SpellTo[t.v]>>
+  IF t.t = "B" /\ t.sub \in IntSub THEN <<t.n, "B:int", t.el>>
+  ELSE IF t.v \in DOMAIN SpellTo THEN <<t.n, SpellTo[t.v]>>
   ELSE IF t.t = "f" THEN <<t.n, "f:~">>
   ELSE IF t.t = "B" /\ t.sub = "f" THEN <<t.n, "B:f~", Len(t.el)>>
-  ELSE IF t.t = "B" /\ t.sub \in IntSub THEN <<t.n, "B:int", t.el>>
   ELSE <<t.n, t.v>>
 CTags(l) == {CT(l.tg[i]) : i \in DOMAIN l.tg}
 
@@ -91,14 +92,15 @@ Var == <<
   Tg("fa", "f", "1.5"), Tg("fb", "f", "1e3"), Tg("fc", "f", "1.50"),
   Tg("fd", "f", "0.1234567891"), Tg("fe", "f", "-5"),
   Tg("za", "Z", "with space"),
-  Tg("ja", "J", "{\"a\": 1}"), Tg("jb", "J", "{\"a\":1}"), Tg("jc", "J", "[1,2.5,\"x\",null,true]"),
+  Tg("ja", "J", "{\"a\": 1}"), Tg("jb", "J", "{\"a\":1}"), Tg("jc", "J", "[1,2.5,\"x\",null,true]"), Tg("jd", "J", "[1, 2]"),
   Tg("ha", "H", "1AE3"),
   TgB("ba", "C", <<"1", "2">>), TgB("bb", "i", <<"1", "2">>),
   TgB("bc", "f", <<"1.5", "2.0">>), TgB("bd", "f", <<"1", "2.5">>), TgB("be", "c", <<"-1", "2">>) >>
 NVar == Len(Var)
 Datatypes == {"A", "i", "f", "Z", "J", "H", "B"}
 ASSUME {Var[i].t : i \in DOMAIN Var} = Datatypes
-ASSUME \A i \in DOMAIN Var : Var[i].v \in DOMAIN SpellTo
+\* the written form of every catalogue tag is fully predicted
+ASSUME \A i \in DOMAIN Var : Var[i].v \in DOMAIN SpellTo \/ (Var[i].t = "B" /\ Var[i].sub \in IntSub)
 
 (* tags added to the line at position j (1-based) of a document under variant tv:
    tv = 0 none; otherwise a rotating variant, two of them on even positions *)
